@@ -1,5 +1,6 @@
 import LoraVerif.Model.Persist
 import LoraVerif.Props.C05
+import LoraVerif.Props.C08
 /-!
 # C20 — a persisted session restores losslessly and never rewinds counters
 
@@ -12,6 +13,10 @@ import LoraVerif.Props.C05
 * `restored_same_uplink`, `restored_same_replay_verdict`: the model's operations are functions of
   the session, so the restored device emits the same next uplink and rejects exactly the same
   downlinks as the original.
+* HISTORIES: `history_persist` — the hypothesis `SessionWF` of the round-trip theorems holds in EVERY
+  state EVERY history reaches (`step_sessInv`: u32 counters, ≤ 15 pending bytes each < 256 — the
+  latter from C08's `Answers`: `answers_bytes`), so persisting at any point of any history and
+  restoring yields the very same device state, and every continuation runs identically.
 -/
 open Model
 
@@ -78,6 +83,423 @@ example : SessionWF s15 := by unfold SessionWF s15 Session.new; simp
 example : deser (ser s15) = some s15 := by decide
 example : deser { ser s15 with uplink := { (ser s15).uplink with pendingLen := 16 } } = none := by decide
 
+
+/-! ## histories: every session a history reaches restores losslessly, at any point -/
+
+/-- representation facts of the addresses an event carries: DevAddr is a 32-bit field -/
+def addrOk : Ev → Bool
+  | .joinAbp da _ _ => decide (da < 4294967296)
+  | .joinOtaa _ rx1 rx2 _ _ =>
+    (match rx1 with | some (.joinAccept j, _) => decide (j.devAddr < 4294967296) | _ => true) &&
+    (match rx2 with | some (.joinAccept j, _) => decide (j.devAddr < 4294967296) | _ => true)
+  | _ => true
+
+/-- the session of the state, if any, satisfies the type invariants of `Session` -/
+def SessInv (m : MacState) : Prop := ∀ s, m.st = .joined s → SessionWF s
+
+theorem retainSticky_mem (fuel : Nat) (l : List Nat) : ∀ b ∈ retainSticky fuel l, b ∈ l := by
+  induction fuel generalizing l with
+  | zero => intro b hb; simp [retainSticky] at hb
+  | succ fuel ih =>
+    cases l with
+    | nil => intro b hb; simp [retainSticky] at hb
+    | cons cid rest =>
+      intro b hb
+      unfold retainSticky at hb
+      split at hb
+      · cases hb
+      · rename_i n _
+        split at hb
+        · cases hb
+        · rcases List.mem_append.mp hb with h1 | h2
+          · split at h1
+            · rcases List.mem_cons.mp h1 with rfl | h1
+              · exact List.mem_cons_self
+              · exact List.mem_cons_of_mem _ (List.mem_of_mem_take h1)
+            · cases h1
+          · exact List.mem_cons_of_mem _ (List.mem_of_mem_drop (ih _ b h2))
+
+theorem retainSticky_length (fuel : Nat) (l : List Nat) : (retainSticky fuel l).length ≤ l.length := by
+  induction fuel generalizing l with
+  | zero => simp [retainSticky]
+  | succ fuel ih =>
+    cases l with
+    | nil => simp [retainSticky]
+    | cons cid rest =>
+      unfold retainSticky
+      split
+      · simp
+      · rename_i n _
+        split
+        · simp
+        · rename_i hn
+          have := ih (rest.drop n)
+          simp only [List.length_append, List.length_cons, List.length_drop] at this ⊢
+          split
+          · simp only [List.length_cons, List.length_take]; omega
+          · simp only [List.length_nil]; omega
+
+theorem sentSession_wf (s : Session) (conf : Bool) (h : SessionWF s) : SessionWF (sentSession s conf) := by
+  obtain ⟨h1, h2, h3, h4, h5, h6⟩ := h
+  refine ⟨?_, ?_, h3, h4, h5, h6⟩
+  · exact Nat.le_trans (retainSticky_length _ _) h1
+  · intro b hb; exact h2 b (retainSticky_mem _ _ b hb)
+
+theorem rx2Complete_wf (s : Session) (cfg : Config) (r : RegionId) (h : SessionWF s) : SessionWF (rx2Complete s cfg r).2.1 := by
+  obtain ⟨h1, h2, h3, h4, h5, h6⟩ := h
+  unfold rx2Complete
+  by_cases hx : s.fcntUp = 0xFFFFFFFF
+  · simp only [hx, beq_self_eq_true, if_true]; exact ⟨h1, h2, by omega, h4, h5, h6⟩
+  · have hx' : (s.fcntUp == 0xFFFFFFFF) = false := by simp [hx]
+    simp only [hx', Bool.false_eq_true, if_false]
+    (repeat' split) <;> refine ⟨h1, h2, ?_, h4, ?_, h6⟩ <;> simp only [] <;> omega
+
+theorem timeoutState_inv (m : MacState) (h : SessInv m) : SessInv (timeoutState m) := by
+  intro s' hs'
+  by_cases hj : ∃ s, m.st = .joined s
+  · obtain ⟨s, hs⟩ := hj
+    have e : (timeoutState m).st = .joined (rx2Complete s m.cfg m.region.id).2.1 := by
+      unfold timeoutState macRx2Complete; simp only [hs]
+    rw [e] at hs'; cases hs'
+    exact rx2Complete_wf s m.cfg m.region.id (h s hs)
+  · rw [timeoutState_notJoined m (fun s hs => hj ⟨s, hs⟩)] at hs'
+    exact h s' hs'
+
+theorem devStatusMargin_lt (snr : Int) : devStatusMargin snr < 256 := by
+  unfold devStatusMargin
+  split
+  · omega
+  · omega
+
+/-- every byte of every answer is a byte -/
+theorem answers_bytes {snr : Int} {cmds : List C08.Cmd} {st st' : C08.St} {as : List C08.Ans} (h : C08.Answers snr cmds st as st') :
+    ∀ b ∈ C08.wires as, b < 256 := by
+  induction h with
+  | nil st => intro b hb; simp [C08.wires] at hb
+  | skip cid p rest st as st' _ _ ih => exact ih
+  | devStatus p rest st as st' _ ih =>
+    intro b hb
+    simp only [C08.wires, List.map_cons, List.flatten_cons, C08.wire, List.mem_append, List.mem_cons] at hb
+    rcases hb with (rfl | rfl | rfl | hb) | hb
+    · omega
+    · omega
+    · exact devStatusMargin_lt snr
+    · cases hb
+    · exact ih b hb
+  | rxParam p rest st ans st1 as st' ho _ ih =>
+    obtain ⟨dl, f, _, _, _, _, _, _, _, _, hle⟩ := ho
+    intro b hb
+    simp only [C08.wires, List.map_cons, List.flatten_cons, C08.wire, List.mem_append, List.mem_cons] at hb
+    rcases hb with (rfl | rfl | hb) | hb
+    · omega
+    · omega
+    · cases hb
+    · exact ih b hb
+  | rxTiming p rest st st1 as st' _ _ ih =>
+    intro b hb
+    simp only [C08.wires, List.map_cons, List.flatten_cons, C08.wire, List.mem_append, List.mem_cons] at hb
+    rcases hb with (rfl | hb) | hb
+    · omega
+    · cases hb
+    · exact ih b hb
+  | newChannel p rest st ans st1 as st' _ ho _ ih =>
+    obtain ⟨idx, f, r, a, bb, _, _, _, hans, _⟩ := ho
+    intro b hb
+    simp only [C08.wires, List.map_cons, List.flatten_cons, C08.wire, List.mem_append, List.mem_cons] at hb
+    rcases hb with (rfl | rfl | hb) | hb
+    · omega
+    · rw [hans]; cases a <;> cases bb <;> simp
+    · cases hb
+    · exact ih b hb
+  | dlChannel p rest st ans st1 as st' _ ho _ ih =>
+    obtain ⟨idx, f, a, bb, _, _, hans, _⟩ := ho
+    intro b hb
+    simp only [C08.wires, List.map_cons, List.flatten_cons, C08.wire, List.mem_append, List.mem_cons] at hb
+    rcases hb with (rfl | rfl | hb) | hb
+    · omega
+    · rw [hans]; cases a <;> cases bb <;> simp
+    · cases hb
+    · exact ih b hb
+  | linkAdr ps p rest st ans st1 as st' _ ho _ ih =>
+    obtain ⟨mask, rfu, b0, _, _, _, _, _, _, _, _, hle⟩ := ho
+    intro b hb
+    simp only [C08.wires, List.map_append, List.flatten_append, List.mem_append] at hb
+    rcases hb with hb | hb
+    · simp only [List.map_replicate, C08.wire, List.mem_flatten, List.mem_replicate] at hb
+      obtain ⟨l, ⟨_, rfl⟩, hb⟩ := hb
+      simp only [List.mem_cons, List.not_mem_nil, or_false] at hb
+      rcases hb with rfl | rfl <;> omega
+    · exact ih b hb
+
+
+theorem wires_append (as bs : List C08.Ans) : C08.wires (as ++ bs) = C08.wires as ++ C08.wires bs := by
+  simp [C08.wires]
+
+theorem wires_prefix_mem {as bs : List C08.Ans} (hp : as <+: bs) : ∀ b ∈ C08.wires as, b ∈ C08.wires bs := by
+  obtain ⟨t, rfl⟩ := hp
+  intro b hb
+  rw [wires_append]; exact List.mem_append_left _ hb
+
+/-- the queue an accepted Class A frame leaves is a well-formed queue -/
+theorem acceptCmds_pending (pending : List Nat) (cfg : Config) (region : RegionState) (d : RxData) (snr : Int) (ctx : MacCtx)
+    (h : acceptCmds pending cfg region d snr false = .ok ctx) : ctx.pending.length ≤ 15 ∧ ∀ b ∈ ctx.pending, b < 256 := by
+  obtain ⟨as1, as2, cfg1, rg1, m1, ha1, ha2, hp⟩ := C08.accept_answers pending cfg region d snr ctx h
+  rw [hp]
+  refine ⟨C08.wires_fit_le 15 _, fun b hb => ?_⟩
+  have hb' := wires_prefix_mem (C08.fit_prefix 15 (as1 ++ as2)) b hb
+  rw [wires_append] at hb'
+  rcases List.mem_append.mp hb' with h1 | h2
+  · exact answers_bytes ha1 b h1
+  · by_cases hport : d.fport = some 0
+    · rw [if_pos hport] at ha2
+      obtain ⟨m2, ha2⟩ := ha2
+      exact answers_bytes ha2 b h2
+    · rw [if_neg hport] at ha2
+      rw [ha2.1] at h2
+      simp [C08.wires] at h2
+
+theorem acceptFinish_wf (s : Session) (d : RxData) (N : Nat) (ctx : MacCtx) (h : SessionWF s) (hN : N < 4294967296)
+    (hp : ctx.pending.length ≤ 15 ∧ ∀ b ∈ ctx.pending, b < 256) : SessionWF (acceptFinish s d N ctx).2.1 := by
+  obtain ⟨h1, h2, h3, h4, h5, h6⟩ := h
+  unfold acceptFinish
+  simp only []
+  by_cases hx : s.fcntUp = 0xFFFFFFFF
+  · simp only [hx, beq_self_eq_true, if_true]
+    exact ⟨hp.1, hp.2, by simp only []; omega, fun n hn => by cases hn; exact hN, by simp only []; omega, h6⟩
+  · have hx' : (s.fcntUp == 0xFFFFFFFF) = false := by simp [hx]
+    simp only [hx', Bool.false_eq_true, if_false]
+    exact ⟨hp.1, hp.2, by simp only []; omega, fun n hn => by cases hn; exact hN, by simp only []; omega, h6⟩
+
+theorem acceptState_inv (m : MacState) (s : Session) (d : RxData) (N : Nat) (ctx : MacCtx) (h : SessionWF s)
+    (hN : N < 4294967296) (hp : ctx.pending.length ≤ 15 ∧ ∀ b ∈ ctx.pending, b < 256) : SessInv (acceptState m s d N ctx) := by
+  intro s' hs'
+  rw [acceptState_st] at hs'; cases hs'
+  exact acceptFinish_wf s d N ctx h hN hp
+
+theorem new_wf (da nwk app : Nat) (h : da < 4294967296) : SessionWF (Session.new da nwk app) := by
+  refine ⟨by simp [Session.new], fun b hb => by simp [Session.new] at hb, by simp [Session.new], fun n hn => by simp [Session.new] at hn,
+    by simp [Session.new], h⟩
+
+/-- **every step keeps the session's type invariants** -/
+theorem step_sessInv {σ} (g : Rng σ) (m m' : MacState) (rs rs' : σ) (ev : Ev) (out : Out) (gh : Gh)
+    (hr : GhRel m gh) (hi : SessInv m) (hv : evOk ev = true ∧ addrOk ev = true)
+    (h : step g (m, rs) ev = .ok ((m', rs'), out)) : SessInv m' := by
+  cases ev with
+  | joinAbp da nwk app =>
+    simp only [step, pure, Except.pure, Except.ok.injEq, Prod.mk.injEq] at h
+    obtain ⟨⟨rfl, _⟩, _⟩ := h
+    intro s hs
+    simp only [macJoinAbp, JoinState.joined.injEq] at hs
+    subst hs
+    exact new_wf da nwk app (by simpa [addrOk] using hv.2)
+  | setDr dr =>
+    simp only [step, pure, Except.pure, Except.ok.injEq, Prod.mk.injEq] at h
+    obtain ⟨⟨rfl, _⟩, _⟩ := h
+    exact hi
+  | setAdr on =>
+    simp only [step, pure, Except.pure, Except.ok.injEq, Prod.mk.injEq] at h
+    obtain ⟨⟨rfl, _⟩, _⟩ := h
+    intro s' hs'
+    by_cases hj : ∃ s, m.st = .joined s
+    · obtain ⟨s, hs⟩ := hj
+      obtain ⟨cnt, e⟩ := (macSetAdr_st m on).1 s hs
+      have hc : cnt = 0 ∨ cnt = s.adrAckCnt := by
+        unfold macSetAdr at e
+        cases on
+        · simp only [hs, JoinState.joined.injEq] at e
+          left; have := congrArg Session.adrAckCnt e; simpa using this.symm
+        · simp only [hs, JoinState.joined.injEq] at e
+          right; have := congrArg Session.adrAckCnt e; simpa using this.symm
+      rw [e] at hs'; cases hs'
+      obtain ⟨h1, h2, h3, h4, h5, h6⟩ := hi s hs
+      exact ⟨h1, h2, h3, h4, by rcases hc with rfl | rfl <;> simp only [] <;> omega, h6⟩
+    · rw [(macSetAdr_st m on).2 (fun s hs => hj ⟨s, hs⟩)] at hs'
+      exact absurd ⟨s', hs'⟩ hj
+  | joinOtaa fault rx1 rx2 mp1 mp2 =>
+    obtain ⟨jo, m1, o, _, hst1, _, ht⟩ := step_joinOtaa_inv g m m' rs rs' fault rx1 rx2 mp1 mp2 out h
+    intro s hs
+    cases hj : joinRes fault rx1 rx2 with
+    | some j =>
+      simp only [hj] at ht
+      rw [otaaAccept_st m1 m' j ht.1] at hs
+      cases hs
+      refine new_wf _ _ _ ?_
+      -- the JoinAccept was heard in RX1 or RX2: its address is a 32-bit field
+      have hacc : ∀ (f : Option (RxView × Int)), joinAcc f = some j → ∃ snr, f = some (.joinAccept j, snr) := by
+        intro f hf
+        unfold joinAcc at hf
+        split at hf
+        · rename_i j' snr; split at hf
+          · cases hf; exact ⟨snr, rfl⟩
+          · cases hf
+        · cases hf
+      have hheard : (∃ snr, rx1 = some (.joinAccept j, snr)) ∨ (∃ snr, rx2 = some (.joinAccept j, snr)) := by
+        have hsj : specJoin rx1 rx2 = some j → (∃ snr, rx1 = some (.joinAccept j, snr)) ∨ (∃ snr, rx2 = some (.joinAccept j, snr)) := by
+          intro hs
+          unfold specJoin at hs
+          cases h1 : joinAcc rx1 with
+          | some j1 => rw [h1] at hs; cases hs; exact Or.inl (hacc rx1 h1)
+          | none => rw [h1] at hs; exact Or.inr (hacc rx2 hs)
+        unfold joinRes at hj
+        cases fault with
+        | none => exact hsj hj
+        | some k =>
+          simp only at hj
+          unfold specJoinFaulted at hj
+          match k with
+          | 0 => cases hj
+          | 1 => exact Or.inl (hacc rx1 hj)
+          | k + 2 => exact hsj hj
+      have ha := hv.2
+      simp only [addrOk, Bool.and_eq_true] at ha
+      rcases hheard with ⟨snr, rfl⟩ | ⟨snr, rfl⟩
+      · simpa using ha.1
+      · simpa using ha.2
+    | none =>
+      simp only [hj] at ht
+      obtain ⟨rfl, _⟩ := ht
+      rw [hst1] at hs; cases hs
+  | rxc v snr mp =>
+    cases gh with
+    | none =>
+      obtain ⟨rfl, _, _⟩ := step_rxc_notJoined g m m' rs rs' hr v snr mp out h
+      exact hi
+    | some last =>
+      obtain ⟨s, hst, rfl, hl⟩ := hr
+      have hvv : viewOk v = true := by simpa [evOk] using hv.1
+      obtain ⟨_, rf, _, ht⟩ := step_rxc_joined g m m' rs rs' s hst hl v snr mp hvv out h
+      cases hs : specRxc s.fcntDown v mp with
+      | none => simp only [hs] at ht; obtain ⟨rfl, _⟩ := ht; exact hi
+      | some p =>
+        obtain ⟨N, d⟩ := p
+        simp only [hs] at ht
+        obtain ⟨rfl, _⟩ := ht
+        have hN : N < 4294967296 := by
+          unfold specRxc at hs
+          cases v with
+          | garbage => cases hs
+          | joinAccept j => cases hs
+          | data d' =>
+            simp only [Option.map_eq_some_iff, Prod.mk.injEq] at hs
+            obtain ⟨N', ha, rfl, rfl⟩ := hs
+            exact lastOk_accepts (by simpa [viewOk] using hvv) ha N' rfl
+        have hw := hi s hst
+        exact acceptState_inv m s d N _ hw hN ⟨hw.1, hw.2.1⟩
+  | uplink data fport conf fault rx1 rx2 mp1 mp2 =>
+    cases gh with
+    | none =>
+      obtain ⟨rfl, _, _⟩ := step_uplink_notJoined g m m' rs rs' hr data fport conf fault rx1 rx2 mp1 mp2 out h
+      exact hi
+    | some last =>
+      obtain ⟨s, hst, rfl, hl⟩ := hr
+      have hvv : rxOk rx1 = true ∧ rxOk rx2 = true := by simpa [evOk] using hv.1
+      obtain ⟨so, m1, _, _, hst1, _, ht⟩ :=
+        step_uplink_joined g m m' rs rs' s hst hl data fport conf fault rx1 rx2 mp1 mp2 hvv.1 hvv.2 out h
+      have hw1 : SessionWF (sentSession s conf) := sentSession_wf s conf (hi s hst)
+      have hi1 : SessInv m1 := by intro s' hs'; rw [hst1] at hs'; cases hs'; exact hw1
+      have hfd : (sentSession s conf).fcntDown = s.fcntDown := rfl
+      have hacc : ∀ N d snr ctx, upRes s.fcntDown fault rx1 rx2 mp1 mp2 = .accepted N d snr →
+          acceptCmds (sentSession s conf).pending m1.cfg m1.region d snr false = .ok ctx →
+          SessInv (acceptState m1 (sentSession s conf) d N ctx) := by
+        intro N d snr ctx hu hc
+        obtain ⟨mp, ha, hw⟩ := upRes_accepted hvv.1 hvv.2 hu
+        exact acceptState_inv m1 _ d N ctx hw1 (lastOk_accepts hw ha N rfl) (acceptCmds_pending _ _ _ d snr ctx hc)
+      unfold UplinkTail at ht
+      cases fault with
+      | none =>
+        simp only at ht
+        cases hsc : specCycle s.fcntDown rx1 rx2 mp1 mp2 with
+        | accepted N d snr =>
+          rw [hfd, hsc] at ht
+          obtain ⟨ctx, hc, rfl, _⟩ := ht
+          exact hacc N d snr ctx hsc hc
+        | ended => rw [hfd, hsc] at ht; obtain ⟨rfl, _⟩ := ht; exact timeoutState_inv m1 hi1
+        | nothing => rw [hfd, hsc] at ht; obtain ⟨rfl, _⟩ := ht; exact timeoutState_inv m1 hi1
+      | some k =>
+        simp only at ht
+        obtain ⟨m2, hm2, rfl, _⟩ := ht
+        rw [faultAfterTx_eq]
+        refine timeoutState_inv m2 ?_
+        cases hsc : specFaulted s.fcntDown k rx1 rx2 mp1 mp2 with
+        | accepted N d snr =>
+          rw [hfd, hsc] at hm2
+          obtain ⟨ctx, hc, rfl⟩ := hm2
+          exact hacc N d snr ctx hsc hc
+        | ended => rw [hfd, hsc] at hm2; subst hm2; exact timeoutState_inv m1 hi1
+        | nothing => rw [hfd, hsc] at hm2; subst hm2; exact hi1
+
+/-- what is written to non-volatile memory: the session, if there is one -/
+def persist (m : MacState) : Option SessionDoc :=
+  match m.st with
+  | .joined s => some (ser s)
+  | _ => none
+
+/-- a device (same configuration and channel plan) restored from a document -/
+def restore (m : MacState) (d : SessionDoc) : Option MacState := (deser d).map (fun s => { m with st := .joined s })
+
+theorem restore_persist (m : MacState) (hi : SessInv m) (d : SessionDoc) (h : persist m = some d) : restore m d = some m := by
+  unfold persist at h
+  cases hst : m.st with
+  | joined s =>
+    simp only [hst, Option.some.injEq] at h
+    subst h
+    unfold restore
+    rw [deser_ser s (hi s hst)]
+    simp only [Option.map_some, Option.some.injEq]
+    cases m; simp only at hst; subst hst; rfl
+  | otaa o => simp [hst] at h
+  | unjoined => simp [hst] at h
+
+/-- **C20 over every history.**  Run ANY history `evs1` (valid address fields, 16-bit wire counters)
+from a state whose session, if any, satisfies the type invariants (e.g. the initial state); persist
+the session there; restore it into the device: the restored device IS the original
+(`restore … = some m1`), so every continuation `evs2` — next uplinks, verdicts on replayed downlinks,
+counters — runs identically. -/
+theorem history_persist {σ} (g : Rng σ) (m : MacState) (rs : σ) (gh : Gh) (hr : GhRel m gh) (hi : SessInv m)
+    (evs1 : List Ev) (hv : ∀ ev ∈ evs1, evOk ev = true ∧ addrOk ev = true) (m1 : MacState) (rs1 : σ) (outs1 : List Out)
+    (h : run g (m, rs) evs1 = .ok ((m1, rs1), outs1)) :
+    SessInv m1 ∧ ∀ d, persist m1 = some d → restore m1 d = some m1 ∧
+      ∀ evs2, (restore m1 d).map (fun mr => run g (mr, rs1) evs2) = some (run g (m1, rs1) evs2) := by
+  have hc := run_chain g (m, rs) (m1, rs1) evs1 outs1 h
+  have hv' : ∀ x ∈ evs1.zip outs1, evOk x.1 = true ∧ addrOk x.1 = true := fun x hx => hv x.1 (List.of_mem_zip hx).1
+  have hinv : SessInv m1 := by
+    generalize evs1.zip outs1 = t at hc hv'
+    clear h hv
+    induction t generalizing m rs gh with
+    | nil => simp only [Chain] at hc; cases hc; exact hi
+    | cons x rest ih =>
+      obtain ⟨ev, out⟩ := x
+      simp only [Chain] at hc
+      obtain ⟨⟨m2, rs2⟩, hs, hrest⟩ := hc
+      have hve := hv' (ev, out) List.mem_cons_self
+      exact ih m2 rs2 (ghStep gh ev) (step_ghRel g m m2 rs rs2 ev out gh hr hve.1 hs)
+        (step_sessInv g m m2 rs rs2 ev out gh hr hi hve hs) hrest (fun x hx => hv' x (List.mem_cons_of_mem _ hx))
+  refine ⟨hinv, fun d hd => ?_⟩
+  have := restore_persist m1 hinv d hd
+  exact ⟨this, fun evs2 => by rw [this]; rfl⟩
+
+theorem sessInv_init (r : RegionState) (p : Nat) (gain : Int) : SessInv (MacState.init r p gain) := by
+  intro s hs; cases hs
+
+
+/-! non-vacuity: a session with pending sticky answers and a stored downlink counter, persisted after
+three events and restored -/
+def lcg : Rng Nat := fun x => ((x * 1103515245 + 12345) / 65536, x * 1103515245 + 12345)
+def demoFrame : RxData :=
+  { len := 20, confirmed := true, fcnt16 := 9, micFcnt := some 9, fopts := [0x05, 0x23, 0xD2, 0xAD, 0x84, 0x06],
+    fport := some 1, payload := [1] }
+def demoHistory : List Ev :=
+  [ .joinAbp 7 1 2, .uplink [1] 1 true none (some (.data demoFrame, 5)) none 51 51, .uplink [2] 1 false none none none 51 51 ]
+
+example : ∀ ev ∈ demoHistory, evOk ev = true ∧ addrOk ev = true := by decide
+example : (run lcg (MacState.init (RegionState.init .EU868) 14 0, 1) demoHistory).toOption.bind
+      (fun r => (persist r.1.1).bind (restore r.1.1)) =
+    (run lcg (MacState.init (RegionState.init .EU868) 14 0, 1) demoHistory).toOption.map (fun r => r.1.1) := by decide +kernel
+example : (run lcg (MacState.init (RegionState.init .EU868) 14 0, 1) demoHistory).toOption.bind (fun r => persist r.1.1) =
+    some { uplink := { confirmed := false, pendingLen := 2, pendingData := [5, 7, 0, 0, 0, 0, 0, 0, 0, 0, 0, 0, 0, 0, 0] },
+           confirmed := false, nwkKey := 1, appKey := 2, devAddr := 7, fcntUp := 2, fcntDown := some 9, adrAckCnt := 1 } := by
+  decide +kernel
+
 end C20
 
 #print axioms C20.deser_ser
@@ -85,3 +507,7 @@ end C20
 #print axioms C20.restored_same_uplink
 #print axioms C20.restored_same_replay_verdict
 #print axioms C20.restored_counters
+#print axioms C20.step_sessInv
+#print axioms C20.restore_persist
+#print axioms C20.history_persist
+#print axioms C20.answers_bytes
